@@ -364,4 +364,6 @@ pub mod verif_hooks {
     }
 
     pub use crate::js::verif_hooks::{js_struct_layouts, JsLayout};
+    pub use crate::dart::verif_hooks::dart_prim_rows;
+    pub use crate::kotlin::verif_hooks::kotlin_prim_rows;
 }
